@@ -46,6 +46,16 @@ CLAIMED = {
  'C13': ('model_checking', '3 (C13)',
          'Four real consumer shapes (break / raise / generator.close() / with-block) abandoning at a solver-chosen event of grammar-generated scenarios (poll=0 so top-of-loop Polls occur), '
          'optionally after close(): socket.close() and selector.close() must have been called.'),
+ 'C10': ('model_checking', '3 (C10)',
+         'Request: os.urandom(16) is 16 symbolic bytes; build_request() parsed by an independent reader, key header base64-DEcoded by a reference decoder must equal the drawn bytes '
+         '(all 2^128 keys), per-attempt freshness over 3 connects. Reply: structural templates x symbolic holes (3 status bytes, Upgrade value, 28-byte Accept value, header-name case); '
+         'Ready <=> 101 and websocket and accept == b64(D(key)) exactly, sha1 uninterpreted; 16 KiB header bound with a symbolic length window and cut.'),
+ 'C17': ('model_checking', '3 (C17)',
+         'Two connects on one object inside one path (symbolic bytes + solver-chosen abnormal ending, then valid handshake + symbolic bytes) compared against a fresh object fed the '
+         'same symbolic bytes: identical branching, events, payload terms, decoded frames; public state at Connecting is initial; new key.'),
+ 'C19': ('model_checking', '3 (C19)',
+         'Proxy answer = HTTP/1.1 + 3 symbolic status bytes + solver-chosen tail/segmentation/fault over a grid of proxy URL shapes; ordered I/O-log oracle: CONNECT names exactly '
+         'host:port, nothing else written before the complete answer, only status 200 starts the handshake (TLS wrap iff wss, Connected.proxy), otherwise exactly Connecting, ConnectFail.'),
 }
 
 REPLAY = './vcheck {prop} --replay {{path}}'
